@@ -62,7 +62,7 @@ CLAIMED = {
    "Cyclic `is` graphs are outside the statement. Answers compared as sets of def names."),
  "C14": ("model_checking", "DESIGN.md §5 C14, Appendix B.2",
    "explicit-state BFS (E3) over cache states under sequential histories on the genuine DashMap and on the hook Shim (identical transition graphs bind the model to the real thing) + exhaustive preemption-bounded exploration (E4+E2) of all interleavings of 2-3 logical threads running the real namespace code under a controlled scheduler",
-   "C14-H: breadth-first search to closure (864 cache states, 25 920 transitions) from the cold namespace with 30 concrete queries; every answer equals the cold answer and the graph's answer; run on the genuine DashMap in an isolated child with watchdog and on the Shim with deadlock detection. C14-S: 2 threads x 1 query (all 55 pairs of a 10-query core, cold and warm starts), 2 threads x 2 queries, 3 threads x 1 query (all 220 multisets), for the two extreme shard partitions (thorough: every partition of the touched supertypes keys), every schedule with <= 2 (thorough 3; 3 threads: 2) preemptions, scheduling points at every shard-lock acquisition and thread start/exit; the two shortest scenarios without bound. Oracle per execution: no deadlock, no panic, every answer equals the answer given alone, every final cache entry occurs in the sequential closure.",
+   "C14-H: breadth-first search to closure (1 056 cache states, 38 016 transitions) from the cold namespace with 36 concrete queries; every answer equals the cold answer and the graph's answer; run on the genuine DashMap in an isolated child with watchdog and on the Shim with deadlock detection. C14-S: 2 threads x 1 query (all 55 pairs of a 10-query core, cold and warm starts), 2 threads x 2 queries, 3 threads x 1 query (all 220 multisets), for the two extreme shard partitions (thorough: every partition of the touched supertypes keys), every schedule with <= 2 (thorough 3; 3 threads: 2) preemptions, scheduling points at every shard-lock acquisition and thread start/exit; the two shortest scenarios without bound. Oracle per execution: no deadlock, no panic, every answer equals the answer given alone, every final cache entry occurs in the sequential closure.",
    "Hook: cfg(j2inn_libhaystack_verif) DashMap/HashSet look-alikes (commit in MANIFEST.hooks). The Shim's lock model (reader-preferring RW lock per shard) is read from dashmap-6.1.0/src/lock.rs and bound by C14-H; DashMap's own lock implementation and memory orderings below sequential consistency are trusted. Logical threads are stackful coroutines serialised on one OS thread (like loom); 4-16 threads and unbounded preemptions are out of reach of exhaustive exploration."),
 
  "C15": ("exploration", "DESIGN.md §5 C15",
